@@ -118,6 +118,52 @@ func getWalk(c *core.Ctx) *walkModel {
 	return m
 }
 
+// walkSite: where function f hands (buffer, limit) to the walk — either a
+// direct call of the walk, or a call of a module wrapper h(…) that passes two
+// of its own parameters unchanged to the walk (started at the root).
+type walkSite struct {
+	call     *ssa.Call
+	buf, lim ssa.Value
+	wrapper  *ssa.Function
+}
+
+func (m *walkModel) sitesIn(f *ssa.Function) []walkSite {
+	var out []walkSite
+	for _, ci := range core.Calls(f) {
+		call, ok := ci.(*ssa.Call)
+		if !ok {
+			continue
+		}
+		g := call.Call.StaticCallee()
+		if g == m.walk && len(call.Call.Args) == 3 {
+			out = append(out, walkSite{call, call.Call.Args[1], call.Call.Args[2], nil})
+			continue
+		}
+		if g == nil || !core.InMod(g) || g.Blocks == nil || exportedAPI(g) || g == f {
+			continue
+		}
+		for _, ci2 := range core.Calls(g) {
+			c2, ok := ci2.(*ssa.Call)
+			if !ok || c2.Call.StaticCallee() != m.walk || len(c2.Call.Args) != 3 {
+				continue
+			}
+			bi, li := -1, -1
+			for i, p := range g.Params {
+				if c2.Call.Args[1] == ssa.Value(p) {
+					bi = i
+				}
+				if c2.Call.Args[2] == ssa.Value(p) {
+					li = i
+				}
+			}
+			if bi >= 0 && li >= 0 {
+				out = append(out, walkSite{call, call.Call.Args[bi], call.Call.Args[li], g})
+			}
+		}
+	}
+	return out
+}
+
 // isParentOf: v is x.parent (load) or ParentAccessor(x).
 func (m *walkModel) isParentOf(v, x ssa.Value) bool {
 	if base, fld, ok := core.LoadOfField(v); ok && fld == m.tm.FParent && base == x {
@@ -750,12 +796,7 @@ var ruleReader = &core.Rule{ID: "R05.2", Min: 8,
 			if !exportedAPI(f) || f.Signature.Recv() != nil || len(f.Params) != 1 {
 				continue
 			}
-			callsWalk := false
-			for _, ci := range core.Calls(f) {
-				if ci.Common().StaticCallee() == m.walk {
-					callsWalk = true
-				}
-			}
+			callsWalk := len(m.sitesIn(f)) > 0
 			switch {
 			case callsWalk && core.IsByteSlice(f.Params[0].Type()):
 				bytesEntry = f
@@ -784,14 +825,10 @@ var ruleReader = &core.Rule{ID: "R05.2", Min: 8,
 		}
 		rc := &readerCheck{c: c, s: s}
 		rc.uses(f, f.Params[0], lim, 0)
-		// the walk's arguments
-		for _, ci := range core.Calls(f) {
-			call, ok := ci.(*ssa.Call)
-			if !ok || call.Call.StaticCallee() != m.walk {
-				continue
-			}
-			s.Check(call.Call.Args[2] == ssa.Value(lim), core.FName(f)+": walk limit is the snapshot", c.Pos(call.Pos()), "same value that sized the read", "the walk is given a limit other than the one that sized the read")
-			rc.buffer(f, call.Call.Args[1], f.Params[0], lim, core.FName(f)+": walk buffer", call.Pos(), 0)
+		// the walk's arguments (directly or through a wrapper that forwards them)
+		for _, ws := range m.sitesIn(f) {
+			s.Check(ws.lim == ssa.Value(lim), core.FName(f)+": walk limit is the snapshot", c.Pos(ws.call.Pos()), "same value that sized the read", "the walk is given a limit other than the one that sized the read")
+			rc.buffer(f, ws.buf, f.Params[0], lim, core.FName(f)+": walk buffer", ws.call.Pos(), 0)
 		}
 		// file entry
 		g := fileEntry
@@ -958,12 +995,8 @@ var ruleLimitSlice = &core.Rule{ID: "R04.1", Min: 5,
 		cm := getConc(c)
 		var f *ssa.Function
 		for _, g := range cm.fs {
-			if exportedAPI(g) && g.Signature.Recv() == nil && len(g.Params) == 1 && core.IsByteSlice(g.Params[0].Type()) {
-				for _, ci := range core.Calls(g) {
-					if ci.Common().StaticCallee() == m.walk {
-						f = g
-					}
-				}
+			if exportedAPI(g) && g.Signature.Recv() == nil && len(g.Params) == 1 && core.IsByteSlice(g.Params[0].Type()) && len(m.sitesIn(g)) > 0 {
+				f = g
 			}
 		}
 		if f == nil {
@@ -971,26 +1004,27 @@ var ruleLimitSlice = &core.Rule{ID: "R04.1", Min: 5,
 		}
 		in := f.Params[0]
 		var lim, wcall *ssa.Call
+		var wbuf, wlim ssa.Value
 		var lens []ssa.Value
 		for _, ci := range core.Calls(f) {
 			call, ok := ci.(*ssa.Call)
 			if !ok {
 				continue
 			}
-			if h := call.Call.StaticCallee(); h != nil && h.Pkg != nil && h.Pkg.Pkg.Path() == "sync/atomic" {
+			if cm.isLimitSnapshot(call) {
 				lim = call
-			}
-			if call.Call.StaticCallee() == m.walk {
-				wcall = call
 			}
 			if core.IsBuiltin(&call.Call, "len") && call.Call.Args[0] == ssa.Value(in) {
 				lens = append(lens, call)
 			}
 		}
+		if ws := m.sitesIn(f); len(ws) == 1 {
+			wcall, wbuf, wlim = ws[0].call, ws[0].buf, ws[0].lim
+		}
 		if lim == nil || wcall == nil {
 			core.Bail("%s: limit load or walk call not found", f.Name())
 		}
-		s.Check(wcall.Call.Args[2] == ssa.Value(lim), "walk limit is the snapshot", c.Pos(wcall.Pos()), "atomic load", "the limit argument of the walk is not the snapshot used for slicing")
+		s.Check(wlim == ssa.Value(lim), "walk limit is the snapshot", c.Pos(wcall.Pos()), "atomic load", "the limit argument of the walk is not the snapshot used for slicing")
 		cases := []struct {
 			name      string
 			l, n      int64
@@ -1008,7 +1042,7 @@ var ruleLimitSlice = &core.Rule{ID: "R04.1", Min: 5,
 				s.Und(key, c.Pos(f.Pos()), fmt.Sprintf("slicing decision not evaluable: %v", err))
 				continue
 			}
-			arg := wcall.Call.Args[1]
+			arg := wbuf
 			if ph, ok := arg.(*ssa.Phi); ok && ph.Block() == wcall.Block() {
 				for k, p := range ph.Block().Preds {
 					if p == exits[0].From {
